@@ -363,6 +363,14 @@ func (h *hand) afterOp(pre, gs *pf.GameState, op GameOp, err error) {
 			h.viol("C05", "betting-round-opened-with-fewer-than-two-stacks", fmt.Sprintf("%s with %d players holding chips", gs.Status.Round, movable(gs)))
 		}
 	}
+	// ---- the betting round was closed by this operation (whatever it was)
+	if ev == "RoundClosed" && pev != "RoundClosed" && alive(gs) >= 2 {
+		for _, p := range gs.Players {
+			if !p.Fold && p.StackSize > 0 && p.Wager < gs.Status.CurrentWager {
+				h.viol("C05", "closed-while-player-owes-chips", fmt.Sprintf("%s closed by op %d: seat %d wagered %d of %d with %d behind", gs.Status.Round, op.Code, p.Idx, p.Wager, gs.Status.CurrentWager, p.StackSize))
+			}
+		}
+	}
 	// ---- a player action was accepted
 	if op.Code >= 10 && pev == "RoundStarted" {
 		actor := pre.Status.CurrentPlayer
@@ -620,7 +628,18 @@ func (h *hand) probe() {
 	if h.probeP < 1 && h.rng.Float64() >= h.probeP {
 		return
 	}
-	before := canonJSON(gs)
+	raw, _ := json.Marshal(gs)
+	mk := func() *pf.GameState {
+		var st pf.GameState
+		json.Unmarshal(raw, &st)
+		return &st
+	}
+	canon := func(st *pf.GameState) string {
+		st.UpdatedAt = 0
+		b, _ := json.Marshal(st)
+		return string(b)
+	}
+	before := canon(mk())
 	ev := gs.Status.CurrentEvent
 	expected := map[string]int{"ReadyRequested": 0, "AnteRequested": 1, "BlindsRequested": 2, "RoundClosed": 3}
 	var ops []GameOp
@@ -646,6 +665,7 @@ func (h *hand) probe() {
 	for a := 0; a <= 4; a++ {
 		ops = append(ops, GameOp{10 + a, -1, 0})
 	}
+	var reuse *pf.GameState
 	for _, op := range ops {
 		legal := false
 		if e, ok := expected[ev]; ok && op.Code == e && op.Code <= 3 {
@@ -663,15 +683,23 @@ func (h *hand) probe() {
 				legal = true
 			}
 		}
-		x := pf.NewPokerFace().NewGameFromState(cloneState(gs))
+		// a clone is reused for as long as the attempts made on it left it byte-identical
+		if reuse == nil {
+			reuse = mk()
+		}
+		x := pf.NewPokerFace().NewGameFromState(reuse)
 		err, pan := applyOp(x, op)
 		if pan != nil {
 			h.viol("C06", "engine-panic", fmt.Sprintf("probe %+v: %v", op, pan))
 			h.o.Line(opCmd("game-try", op), "o=9")
+			reuse = nil
 			continue
 		}
-		after := canonJSON(x.GetState())
+		after := canon(x.GetState())
 		same := after == before
+		if !same {
+			reuse = nil
+		}
 		var ob Obs
 		ob.K("same", b2i(same)).K("o", errGameCode(err))
 		if err == nil {
@@ -727,17 +755,20 @@ func (h *hand) probe() {
 			}
 		}
 	}
-	if canonJSON(gs) != before {
+	if canon(cloneState(gs)) != before {
 		h.viol("C07", "probing-clones-modified-the-original", "")
 	}
 }
 
 // ---------- C15: views ----------
 func expectedView(gs *pf.GameState, viewer int) *pf.GameState {
-	c := cloneState(gs)
+	return expectedViewOf(cloneState(gs), viewer, gs.Status.CurrentEvent == "GameClosed")
+}
+
+// expectedViewOf edits c (a private copy) into what the viewer may see
+func expectedViewOf(c *pf.GameState, viewer int, closed bool) *pf.GameState {
 	c.Meta.Deck = []string{}
 	c.Status.Burned = []string{}
-	closed := gs.Status.CurrentEvent == "GameClosed"
 	for _, p := range c.Players {
 		if p.Idx == viewer {
 			continue
@@ -754,8 +785,10 @@ func (h *hand) probeViews(gs *pf.GameState) {
 	n := len(gs.Players)
 	closed := gs.Status.CurrentEvent == "GameClosed"
 	emit := map[int]bool{-1: true, h.rng.Intn(n): true}
+	raw, _ := json.Marshal(gs)
 	for v := -1; v < n; v++ {
-		c := cloneState(gs)
+		c := &pf.GameState{}
+		json.Unmarshal(raw, c)
 		if v < 0 {
 			c.AsObserver()
 		} else {
@@ -789,9 +822,10 @@ func (h *hand) probeViews(gs *pf.GameState) {
 				h.viol("C15", "hand-evaluation-in-view", fmt.Sprintf("viewer %d sees the evaluation of seat %d", v, p.Idx))
 			}
 		}
-		e, _ := json.Marshal(expectedView(gs, v))
-		// compare modulo empty-vs-null slices: re-marshal through a generic value
-		if normJSON(txt) != normJSON(string(e)) {
+		ec := &pf.GameState{}
+		json.Unmarshal(raw, ec)
+		e, _ := json.Marshal(expectedViewOf(ec, v, closed))
+		if txt != string(e) {
 			h.viol("C15", "view-changed-public-or-own-information", fmt.Sprintf("viewer %d at %s", v, gs.Status.CurrentEvent))
 		}
 		if emit[v] {
